@@ -179,3 +179,69 @@ def install_text_models() -> None:
     # number literals: float("<digits>") in IEEE-precise mode makes z3 answer unknown; the real-valued model is
     # exact for the digit strings the lexer passes (counterexamples are replayed on real floats anyway)
     chpatches.use_real_floats()
+
+
+# ------------------------------------------------------------------ symbolic JSON values
+INF = float("inf")
+NAMES = ["a", "b", ""]  # member names only matter through equality; drawn by a symbolic selector (a symbolic str key
+#                         stored in a real dict would be realized by hashing)
+KIND_NAMES = ["null", "bool", "int", "float", "str", "list", "dict"]
+
+
+def sym_scalar(name: str, kind=None, strlen: int = 2, intbound=None):
+    """A symbolic JSON scalar; *kind* fixes the kind (0 null, 1 bool, 2 int, 3 float, 4 str) or None for a symbolic choice."""
+    k = kind
+    if k is None:
+        k = fresh(int, name + "k")
+        assume(0 <= k <= 4)
+    if k == 0:
+        return None
+    if k == 1:
+        return fresh(bool, name + "b")
+    if k == 2:
+        i = fresh(int, name + "i")
+        if intbound is not None:
+            assume(-intbound <= i <= intbound)
+        return i
+    if k == 3:
+        f = fresh(float, name + "f")
+        assume(f == f and f != INF and f != -INF)
+        return f
+    s = fresh(str, name + "s")
+    assume(len(s) <= strlen)
+    return s
+
+
+def sym_name(name: str, names=NAMES) -> str:
+    sel = fresh(int, name + "n")
+    assume(0 <= sel < len(names))
+    for i, nm in enumerate(names):
+        if sel == i:
+            return nm
+    return names[-1]
+
+
+def sym_json(name: str, depth: int, width: int, kind=None, leaf_kind=None, strlen: int = 1, intbound=1000, names=NAMES):
+    """A symbolic JSON value as real Python objects with symbolic leaves.
+
+    kind: 0..4 scalar kinds, 5 array, 6 object, None = symbolic choice (containers only while depth > 0).
+    Arrays/objects have a symbolic number (0..width) of children; object member names are drawn from *names*.
+    """
+    k = kind
+    if k is None:
+        k = fresh(int, name + "K")
+        assume(0 <= k <= (6 if depth > 0 else 4))
+    if k <= 4:
+        return sym_scalar(name, k if leaf_kind is None or kind is not None else leaf_kind, strlen, intbound)
+    n = fresh(int, name + "N")
+    assume(0 <= n <= width)
+    kids = []
+    for j in range(width):
+        if j < n:
+            kids.append(sym_json("%s_%d" % (name, j), depth - 1, width, None if depth - 1 > 0 or leaf_kind is None else leaf_kind, leaf_kind, strlen, intbound, names))
+    if k == 5:
+        return kids
+    d = {}
+    for j, kid in enumerate(kids):
+        d[sym_name("%s_%d" % (name, j), names)] = kid
+    return d
